@@ -144,6 +144,24 @@ class LenFacts:
         return ex is not None and ex == ({}, n)
 
 
+def _drawn_from(x, container) -> bool:
+    """x is an element term drawn from `container` (directly, through a snapshot list(..)/tuple(..), or through
+    .keys() / .items()[0]) - then container.remove(x) / container.pop(x) / container.index(x) finds it"""
+    from .util import unwrap_iter
+    c = strip_sites(container)
+    cur = x
+    if cur[0] == "item" and cur[2] == const(0):
+        cur = cur[1]
+    if cur[0] != "elem":
+        return False
+    it = strip_sites(unwrap_iter(cur[1]))
+    if it == c:
+        return True
+    if it[0] == "call" and it[1][0] == "attr" and it[1][2] in ("keys", "items", "copy") and it[1][1] == c:
+        return True
+    return False
+
+
 def _is_generator(fi) -> bool:
     from .sym import _has_yield
     return _has_yield(fi)
@@ -263,6 +281,8 @@ class EscapePolicy(InlineOnly):
         if ev.attrname in ("pop", "remove", "index") and not ev.targets and ev.recv is not None:
             if ev.attrname == "pop" and len(ev.args) >= 2:
                 return []
+            if ev.args and _drawn_from(ev.args[0], ev.recv):
+                return []  # the element / key was obtained by iterating this very container
             return {"pop": ["KeyError"], "remove": ["ValueError"], "index": ["ValueError"]}[ev.attrname]
         if f is not None and f[0] == "classconst" and len(ev.args) == 1:
             # cls._address_type(addr_b): address class of the option family applied to an 's' field
